@@ -39,6 +39,9 @@ def combine_composition(
             volumetric_fractions[k] = 0
         volumetric_fractions[k] += f * volume_B
     # convert back to relative fractions
+    if volume_A + volume_B == 0:
+        # mixing zero volumes changes nothing (and must not produce 0/0 = NaN fractions)
+        return dict(composition_A)
     new_composition = {k: v / (volume_A + volume_B) for k, v in volumetric_fractions.items()}
     return new_composition
 
